@@ -226,7 +226,11 @@ class AnsatzWorld(World):
         if r < 0.62:
             mode = rng.choice(["fresh", "fresh", "fresh", "sign_flip", "repeat", "same_again", "zeros"])
             return {"k": "update", "mode": mode, "zero_free": rng.random() < cfg["zero_free_p"], "seed": rng.randrange(10 ** 9)}
-        if r < 0.72:
+        if r < 0.66:
+            return {"k": "set_update", "zero_free": rng.random() < cfg["zero_free_p"], "seed": rng.randrange(10 ** 9), "mode": rng.choice(["fresh", "zeros", "fresh"])}
+        if r < 0.69:
+            return {"k": "edit_update", "idx": rng.randrange(64), "delta": rng.choice([0.8, -0.4, 2 * PI])}
+        if r < 0.74:
             return {"k": "build", "init": "vec", "zero_free": rng.random() < cfg["zero_free_p"], "seed": rng.randrange(10 ** 9)}
         if r < 0.82:
             return {"k": "set_build", "kw_idx": rng.randrange(8)}
@@ -319,6 +323,40 @@ class AnsatzWorld(World):
                 ctx.probe("C07.zero_free_vector")
             if cfg["opts"].get("k", 0) >= 3:
                 ctx.probe("C07.k>=3")
+            return self._after_accept(op, site, th)
+        if k == "set_update":
+            # the parameters are first recorded with set_var_params (the circuit is not touched), then the circuit is updated
+            # with the very same vector: var_params already "equal" the request although the circuit does not encode them
+            th = self._theta_for(op, n)
+            try:
+                quiet(a.set_var_params, list(th))
+                quiet(a.update_var_params, list(th))
+            except Exception as ex:
+                ctx.outcome(k, "refused-unexpectedly")
+                V.append(Violation("C07", "unexpected-refusal", site + ":set_var_params+update_var_params", {"exception": repr(ex)[:300], "theta": th[:10], "config": cfg}))
+                self._resync()
+                return V
+            ctx.outcome(k, "ok")
+            ctx.probe("C07.update_with_already_recorded_vector")
+            return self._after_accept(op, site, th)
+        if k == "edit_update":
+            # the vector exposed as ansatz.var_params is edited in place and handed back to update_var_params
+            vp = getattr(a, "var_params", None)
+            try:
+                vp[op["idx"] % n] = vp[op["idx"] % n] + op["delta"]
+            except Exception:
+                ctx.outcome(k, "skipped")
+                return V
+            th = [float(x) for x in np.array(vp, dtype=float).reshape(-1)]
+            try:
+                quiet(a.update_var_params, vp)
+            except Exception as ex:
+                ctx.outcome(k, "refused-unexpectedly")
+                V.append(Violation("C07", "unexpected-refusal", site + ":update_var_params(edited var_params)", {"exception": repr(ex)[:300], "config": cfg}))
+                self._resync()
+                return V
+            ctx.outcome(k, "ok")
+            ctx.probe("C07.update_with_edited_var_params_object")
             return self._after_accept(op, site, th)
         if k == "set_build":
             kws = keywords(a)
